@@ -178,10 +178,16 @@ type c36VecResult struct {
 	counts     [][]int64 // per start
 	wrapMax    int
 	wrapOverN  int
+	wrapN1     string // first pick at the uint32 wrap that consumed exactly n+1 sequence numbers
 	engineErr  string
 	seqNumbers int64
 	picks      int64
 }
+
+// c36WrapKey is the ONE canonical violation key (same in every tier) for a pick
+// that straddles the uint32 wrap of the sequence counter and consumes exactly
+// n+1 sequence numbers; the smallest example goes into the description.
+const c36WrapKey = "sched-pick-consumes-n+1-at-uint32-wrap"
 
 const c36Extra = 4096 // sliding extension: every window start in [start, start+4096] is checked
 
@@ -324,8 +330,9 @@ func c36RunVector(ws []float64) (res c36VecResult) {
 		}
 	}
 
-	// Window straddling the uint32 wrap of the counter: termination only (the
-	// period does not divide 2^32 unless n is a power of two).
+	// Window straddling the uint32 wrap of the counter: termination, index range
+	// and the literal "<= n sequence numbers per pick" bound (the exact share is
+	// not demanded there: the period does not divide 2^32).
 	{
 		span := uint64(8*n + 2)
 		start := uint32((uint64(1) << 32) - uint64(4*n) - 1)
@@ -351,6 +358,14 @@ func c36RunVector(ws []float64) (res c36VecResult) {
 			}
 			if calls > n {
 				res.wrapOverN++
+				first := uint32(uint64(start) + pos)
+				if calls == n+1 {
+					if res.wrapN1 == "" {
+						res.wrapN1 = fmt.Sprintf("weights %s (n=%d): the pick beginning at sequence number %d (counter wraps 2^32-1 -> 0 during the pick) consumed %d = n+1 sequence numbers before choosing backend %d; the statement allows at most n", c36FmtW(ws), n, first, calls, idx)
+					}
+				} else {
+					fail("wrap-termination-bound-above-n+1", "wrap: the pick beginning at sequence number %d consumed %d > n+1 = %d sequence numbers", first, calls, n+1)
+				}
 			}
 			pos += uint64(calls)
 			res.picks++
@@ -414,6 +429,10 @@ func TestVerif_C36_Sched(t *testing.T) {
 			r.Violation(P, "sched w="+c36FmtW(rp.Weights)+" "+f.kind, f.desc, rp)
 			fmt.Println("replay:", f.kind, f.desc)
 		}
+		if res.wrapN1 != "" {
+			r.Violation(P, c36WrapKey, res.wrapN1, rp)
+			fmt.Println("replay:", c36WrapKey, res.wrapN1)
+		}
 		fmt.Println("replay: counts", res.counts, "type", res.schedType)
 		return
 	}
@@ -423,6 +442,7 @@ func TestVerif_C36_Sched(t *testing.T) {
 	var wg sync.WaitGroup
 	var evals, nontriv, seqs, picks, ties, wrapOver int64
 	wrapMaxOverN := map[int]int{}
+	wrapN1Vec, wrapN1Desc, wrapN1Vectors := -1, "", 0
 	samples := map[string]any{}
 	work := make(chan int, 64)
 	nw := runtime.GOMAXPROCS(0)
@@ -440,6 +460,12 @@ func TestVerif_C36_Sched(t *testing.T) {
 				picks += res.picks
 				ties += int64(exp.ties)
 				wrapOver += int64(res.wrapOverN)
+				if res.wrapN1 != "" {
+					wrapN1Vectors++
+					if wrapN1Vec < 0 || vi < wrapN1Vec {
+						wrapN1Vec, wrapN1Desc = vi, res.wrapN1
+					}
+				}
 				if res.wrapMax-len(ws) > wrapMaxOverN[len(ws)] {
 					wrapMaxOverN[len(ws)] = res.wrapMax - len(ws)
 				}
@@ -494,6 +520,11 @@ func TestVerif_C36_Sched(t *testing.T) {
 	}
 	close(work)
 	wg.Wait()
+	if wrapN1Vec >= 0 {
+		// one canonical key; smallest example (first vector in enumeration order,
+		// first such pick) in the description
+		r.Violation(P, c36WrapKey, fmt.Sprintf("smallest example: %s (%d of the enumerated weight vectors show it)", wrapN1Desc, wrapN1Vectors), map[string]any{"weights": vecs[wrapN1Vec]})
+	}
 	r.Eval(P, evals)
 	r.NontrivialN(P, nontriv)
 	r.Set(P, "sequence_numbers_walked", seqs)
@@ -511,7 +542,7 @@ func TestVerif_C36_Sched(t *testing.T) {
 		}
 	}
 	r.Assume(P, "scaled weight = nearest integer to 65535*v/max(v) (v = weight, or mean of the non-zero weights for an endpoint without usable weight); where that value is within 2^-32 of a half-integer both neighbours are admitted (float64 evaluation of the scaling cannot be pinned down by the statement)")
-	r.Assume(P, "windows straddling the uint32 wrap of the sequence counter are checked for termination and index range only (65535*n does not divide 2^32; neither the exact share nor the <=n bound is demanded there)")
+	r.Assume(P, "windows straddling the uint32 wrap of the sequence counter are checked for termination, index range and the <=n bound per pick, not for the exact share (65535*n does not divide 2^32)")
 	r.Assume(P, "weights are finite non-negative float64; n<=4")
 }
 
